@@ -60,7 +60,7 @@ def check(run, G, gj, uri, case, sch):
     if "err" in mo:
         run.disagree(case, mo, {"ok": True})
         return
-    a, b = W.split_text(W.now_masked(text)), W.split_text(mo["text"])
+    a, b = W.split_text(text), W.split_text(mo["text"])
     if a != b:
         k = next((i for i, (x, y) in enumerate(zip(a[1], b[1])) if x != y), None)
         run.disagree(case, {"header": b[0][-300:], "node": None if k is None else b[1][k][:600]},
